@@ -311,6 +311,22 @@ func Main(id, level string, run func(c *Ctx)) {
 		}
 		c.findings = kf.Findings
 	}
+	// time budget: a check that does not come to an end (a changed tree can make every step run into a timeout) is
+	// finished with what it has found so far - exit 1 when a violation was reported, exit 2 otherwise
+	budget := 15 * time.Minute
+	if *tier == "thorough" {
+		budget = 5 * time.Hour
+	}
+	if v := os.Getenv("VERIF_BUDGET_S"); v != "" {
+		if n, err := strconv.Atoi(v); err == nil && n > 0 {
+			budget = time.Duration(n) * time.Second
+		}
+	}
+	go func() {
+		time.Sleep(budget)
+		c.Broken("time budget of %s exceeded; finishing with what was found so far", budget)
+		c.finish()
+	}()
 	func() {
 		defer func() {
 			if r := recover(); r != nil {
